@@ -100,7 +100,36 @@ CliAll == { CliScen("defaults", [timeout |-> 400], FALSE, "dest", <<>>) }
                            <<"icmp_m7_hole", [proto |-> "icmp", m |-> 7, q |-> 2, e2e |-> 0, timeout |-> 300], "hole">>,
                            <<"sctp", [proto |-> "sctp", q |-> 1, e2e |-> 0], "dest">> } }
           \cup { CliScen("no_target", [q |-> 1], FALSE, "dest", <<>>), CliScen("unknown_flag", [q |-> 1], FALSE, "dest", <<"--no-such-flag">>) }
-ASSUME ndJsonSerialize(IOEnv.VT_OUT, SetToSeq(All \cup Extra \cup CliAll)) /\ PrintT(<<"GEN", "C13", Cardinality(All \cup Extra \cup CliAll), Cardinality(All \cup Extra \cup CliAll)>>)
+---------------------------------------------------------------------------
+(* More of the kernel's behaviour.                                                                                     *)
+\* a router that REJECTS forwarded UDP (iptables -j REJECT: port-unreachable from the router, after its own TTL check): hop k is the
+\* router's time-exceeded, every later TTL gets the router's port-unreachable - a hop of that router, never the destination
+LabReject(n, k, cli) ==
+    [id |-> "C13/udp/n" \o ToString(n) \o "/reject" \o ToString(k) \o (IF cli THEN "/cli" ELSE ""), label |-> "udp/n" \o ToString(n) \o "/rejecting_router" \o (IF cli THEN "/cli" ELSE ""),
+     kind |-> "lab", n |-> n, port |-> "closed", silent |-> <<>>, cli |-> cli, v6 |-> FALSE, skip |-> FALSE, reject |-> k, noise |-> "",
+     req |-> [hostname |-> DestAddr(n), port |-> 33434, protocol |-> "udp", tcp_method |-> "", min_ttl |-> 1, max_ttl |-> n + 3,
+              timeout_ms |-> 500, queries |-> 1, e2e |-> 0, want_v6 |-> FALSE, skip_private |-> FALSE],
+     expect |-> [ok |-> TRUE, notsupported |-> FALSE,
+                 hops |-> [t \in 1..(n + 3) |-> [ttl |-> t, addr |-> RouterAddr(IF t < k THEN t ELSE k), dest |-> FALSE]]]]
+\* unrelated large ICMP traffic (1 400-byte echo requests and replies) crosses the tracer while it runs: same result
+LabNoise(v, n, cli) ==
+    [Lab(v, n, "closed", {}, 1, 1, cli) EXCEPT !.id = @ \o "/bigping", !.label = @ \o "/large_unrelated_icmp"] @@ [noise |-> "bigping", reject |-> 0]
+MoreC13 == { LabReject(n, k, c) : n \in {2, MaxN}, k \in {1, 2}, c \in BOOLEAN } \cup { LabNoise(v, 2, c) : v \in {<<"icmp", "">>, <<"udp", "">>, <<"tcp", "syn">>}, c \in BOOLEAN }
+
+\* C08 on the real kernel: a target that silently drops the SYN (the black hole behind the last router). The SACK attempt is bounded by the
+\* handshake timeout (= the request timeout); prefer_sack then runs the SYN trace (n + 3 silent TTLs, one timeout each)
+LabHole(m, n) ==
+    [id |-> "C08/lab/" \o m \o "/n" \o ToString(n) \o "/blackholed_target", label |-> "tcp" \o m \o "/blackholed_target", kind |-> "lab", n |-> n, port |-> "closed",
+     silent |-> <<>>, cli |-> FALSE, v6 |-> FALSE, skip |-> FALSE, reject |-> 0, noise |-> "",
+     req |-> [hostname |-> "10." \o ToString(100 + n) \o ".0.77", port |-> 443, protocol |-> "tcp", tcp_method |-> m, min_ttl |-> 1, max_ttl |-> n + 3,
+              timeout_ms |-> 500, queries |-> 1, e2e |-> 0, want_v6 |-> FALSE, skip_private |-> FALSE],
+     bound_ms |-> IF m = "sack" THEN 500 + 1500 ELSE 500 + (n + 3) * 500 + 1500,
+     expect |-> [ok |-> (m = "prefer_sack"), notsupported |-> (m = "sack"), hops |-> <<>>]]
+C08Lab == { LabHole(m, n) : m \in {"sack", "prefer_sack"}, n \in {1, 2} }
+
+LabGen == IF "VT_GEN" \in DOMAIN IOEnv THEN IOEnv.VT_GEN ELSE "C13"
+LabCases == IF LabGen = "C08" THEN C08Lab ELSE All \cup Extra \cup CliAll \cup MoreC13
+ASSUME ndJsonSerialize(IOEnv.VT_OUT, SetToSeq(LabCases)) /\ PrintT(<<"GEN", LabGen, Cardinality(LabCases), Cardinality(LabCases)>>)
 VARIABLE x
 Init == x = 0
 Next == UNCHANGED x
